@@ -39,7 +39,7 @@ func (c *c01) Meta() engine.Meta {
 		Technique: "deviation-bounded exhaustive exploration of block histories on the real application, twin-replica differential oracle",
 		Rule: "default = dense 8-block history (all 8 tx types, validator change, passing governance proposal, unbonding+refund, rewards+withdraw, contract deploy/call); " +
 			"deviation slots: every tx position (drop / replace by one of 24 menu templates, 12 of them failing), an append slot per block, per-block absent-signer pattern, evidence entry, proposer; " +
-			"genesis variants g3 (3 validators, neutral limiter), g1 (1 validator), g4L (4 equal validators, limiter 33/33), g3s (small-stake history: power-1 stakes, evidence, jailing). " +
+			"genesis variants g3 (3 validators, neutral limiter), g1 (1 validator), g4L (4 equal validators, limiter 33/33), g3s (small-stake history: power-1 stakes, evidence, jailing), g3pp (four passed proposals applying in the same block with overlapping fields). " +
 			"Each history runs on replica A and on replica B in ANOTHER OS PROCESS (separate data directory, TZ changed, restarted once at a case-dependent height; thorough: a third, never restarted replica); compared per call: DeliverTx code/data/gas, EndBlock validator updates (ordered), Commit app hash, Info. " +
 			"distinct_nontrivial = histories with at least one successful and one failed transaction.",
 		Assumptions: []string{
@@ -59,6 +59,15 @@ func (c *c01) build() {
 	}
 	c.base["g3s"] = smallStakeHistory(genesis3s())
 	c.slots["g3s"] = historySlots(c.base["g3s"], txMenu(), true)
+	// g3pp: several passed proposals become applicable in the SAME block and set a common field differently
+	pp := c15History(genesis3())
+	pp.Blocks[2].Txs = append(twoProposals(), prop("V2", 1, 1, 2, `{"slashRatio":"70","gasPrice":"9"}`), prop("V0", 1, 1, 2, `{"slashRatio":"80"}`))
+	for i := 0; i < 4; i++ {
+		pp.Blocks[3].Txs = append(pp.Blocks[3].Txs, vote("V0", i, 0), vote("V1", i, 0), vote("V2", i, 0))
+	}
+	pp.Blocks = pp.Blocks[:8]
+	c.base["g3pp"] = pp
+	c.slots["g3pp"] = historySlots(pp, txMenu(), true)
 }
 
 func (c *c01) Prepare(tier string, seed int64) error {
@@ -66,7 +75,7 @@ func (c *c01) Prepare(tier string, seed int64) error {
 	c.build()
 	c.cases = nil
 	maxD := 2
-	for _, v := range []string{"g3", "g1", "g4L", "g3s"} {
+	for _, v := range []string{"g3", "g1", "g4L", "g3s", "g3pp"} {
 		ss := c.slots[v]
 		d := maxD
 		if v != "g3" {
